@@ -49,6 +49,15 @@ CHECKS = {
  "C19": ("CONF", "complete enumeration of the single-substitution family over the reference documents + generated double substitutions and byte/token mutations through the real loader; serve-smoke of every accepted configuration; crash oracle", "exploration",
          "The manual's examples and the shipped example load; no document of the enumerated family or of the generated mutations makes the loader panic or return an empty error; no accepted configuration makes DHCP handling, RA building or ACL decisions panic.",
          "Documents asking for explicit pools above 2^17 addresses, nesting deeper than 64 or using YAML aliases are not executed (counted): resource exhaustion by eager enumeration is not judged. DNS serving with accepted route tables is decided on the wire tier.", "3/C19"),
+ "C02": ("CONF+HIST", "model-based property testing: generated configurations through the real loader; documented address set from an independent model; set equality by drain / membership probes", "exploration",
+         "For every generated configuration and requesting client/interface, the set of addresses actually leasable (drained with fresh client identifiers, or probed at every boundary for large pools) equals the set the manual documents: no network/broadcast/server address, nothing reserved by a more specific policy, every documented host address leasable, single-address reservations exclusive.",
+         "Trusted: the harness's model of erbium.conf(5). Unconstrained where the manual is silent (explicit pools naming the server's own or network/broadcast addresses; sibling overlap). Prefix lengths 22..30 in the generator; /8../21 only by the eager-size argument (the expansion code is length-independent).", "3/C02"),
+ "C08": ("CONF", "model-based property testing: generated ACL lists through the real loader; reference first-match model vs require_permission (differential incl. refusal kind)", "exploration",
+         "For every generated ACL list (or the documented defaults) and client (IPv4, IPv6, mapped, unix; at and around every prefix boundary) the decision for each of the four operations equals the first-match model, including the kind of refusal.",
+         "Function tier decides acl::require_permission and prefix containment. Whether each entry point (DNS before cache/forwarding, each HTTP path) consults the ACL is glue decided by the wire tier when enabled.", "3/C08"),
+ "C11": ("CONF", "model-based property testing: generated policy trees and requests through the real loader and handle_pkt; independent model of the manual's option semantics", "exploration",
+         "For every generated policy tree, top-level defaults and request, the reply's options equal the model (sibling order, condition-less policies, outer-then-inner override, null unsets, parameter-list gating, defaults with $self4, MTU/router, netmask/broadcast) as a map code -> bytes.",
+         "Trusted: the harness's model of erbium.conf(5) and RFC 2132 encodings for the 20 options generated. Unconstrained: netmask/broadcast with two different matching subnets; empty lists; relayed requests and match-interface are not generated.", "3/C11"),
 }
 
 NOT_YET = {
@@ -87,7 +96,7 @@ def main():
         },
         "engines": [
             {"name": "CODEC", "path": "harness/src/props_codec.rs", "serves_properties": ["C04", "C05", "C06", "C12", "C14", "C16"], "kind_free_text": "independent RFC codecs + proptest strategies for messages, frames, byte mutations; enumerated mutation families"},
-            {"name": "CONF", "path": "harness/src/conf.rs", "serves_properties": ["C17", "C19"], "kind_free_text": "YAML documents (reference docs, substitution family, generated ASTs) through the real loader; serve-smoke"},
+            {"name": "CONF", "path": "harness/src/conf.rs", "serves_properties": ["C02", "C08", "C11", "C17", "C19"], "kind_free_text": "YAML documents (reference docs, substitution family, generated ASTs) through the real loader; serve-smoke"},
             {"name": "HIST", "path": "harness/src/hist.rs", "serves_properties": ["C01", "C09", "C10", "C13", "C18", "C20"], "kind_free_text": "model-based DHCP history interpreter over the real handle_pkt + Pool (proptest)"},
         ],
         "checks": checks,
